@@ -159,8 +159,9 @@ JudgeC15 ==
                                /\ \A k \in K : /\ Len(F[k].dq) = NC /\ Len(F[k].dm) = NC
                                                /\ QShape(F[k].ucq, NC) /\ QShape(F[k].bcq, NF))
             infam == \A k \in K : FieldFits(Gr, F[k].G)
-            GP == TLCEval(GradPTable(Wn, S.alpha, S.p))
-            D == TLCEval([k \in K |-> DivUTable(E, S.alpha, F[k].G)])
+            A == InPlane(S.alpha, ND)
+            GP == TLCEval(GradPTable(Wn, A, S.p))
+            D == TLCEval([k \in K |-> DivUTable(E, A, F[k].G)])
             laws == CellSumsZero(Gr, GP)
             inputs == \A k \in K :
                         /\ F[k].ucq = DispTable(Wc, F[k].G, F[k].u0)
